@@ -56,6 +56,13 @@ structure MemOK (ns : NumSem) : Prop where
   growTyped : ∀ m d, vtOf (ns.grow m d).2 = .i32
   bulkRef : ∀ op m a b c m', ns.bulkS op m a b c = .val m' → ns.bulkT op m a b c = .val m'
   bulkTrap : ∀ op m a b c t, ns.bulkS op m a b c = .trap t → ns.bulkT op m a b c = .trap t
+  /-- atomic accesses: the function the translator dispatches the opcode to (`Model.atomicFn`, from the regenerated
+      `Gen.atomicEmit`) does what the specification's instruction does; a result exists exactly when the row has a result
+      type, and has that type -/
+  atomRef : ∀ kind opcode fn rt m ea args r, atomicFnK kind opcode = some (fn, rt) → ns.rmwS opcode m ea args = .val r →
+    ns.rmwT fn m ea args = .val r ∧ (∀ t, rt = some t → ∃ v, r.1 = some v ∧ vtOf v = t) ∧ (rt = none → r.1 = none)
+  atomTrap : ∀ kind opcode fn rt m ea args t, atomicFnK kind opcode = some (fn, rt) → ns.rmwS opcode m ea args = .trap t →
+    ns.rmwT fn m ea args = .trap t
 
 def JumpOK (lab : Label) (base : Nat) (stk stkB : List Val) (locB : Store) (σ σ' : MSt) : Prop :=
   σ'.store = locB ∧ SlotsBelow lab.height σ σ' ∧ stkB.take base = stk.take base ∧ lab.height ≤ stkB.length ∧
